@@ -512,7 +512,10 @@ def run_cli(argv, vfs, inj, device):
     exc = None
     try:
         try:
-            cli.main()
+            # exactly what `python -m btc_hd_wallet` does: execute the package's __main__.py as module "__main__"
+            # (so a `sys.exit(main())` guard, or anything else at module level, behaves as in a real process)
+            import runpy
+            runpy.run_module("btc_hd_wallet", run_name="__main__", alter_sys=True)
             status = 0
         except SystemExit as e:
             c = e.code
